@@ -49,6 +49,7 @@ unsigned int split;              /* MODE 0: first read returns cmd[0..split), se
 unsigned char mid[ML + 1], rcp[RL + 1], in_delnum;   /* MODE 2 */
 unsigned int in_mode, in_uid;    /* what fstat reports */
 unsigned char in_used;           /* is the addressed slot already in use? */
+unsigned char in_stale;          /* bytes left in the slot's output buffer by the delivery that used it before */
 int in_open_fail, in_fstat_fail, in_pipe_fail, in_spawn_fail;
 
 void sym_inputs(void)
@@ -56,7 +57,7 @@ void sym_inputs(void)
 #ifdef REPLAY
 #include "replay_inputs.inc"
 #else
-  SYM_ARR(cmd); SYM(split); SYM_ARR(mid); SYM_ARR(rcp); SYM(in_delnum); SYM(in_mode); SYM(in_uid); SYM(in_used);
+  SYM_ARR(cmd); SYM(split); SYM_ARR(mid); SYM_ARR(rcp); SYM(in_delnum); SYM(in_mode); SYM(in_uid); SYM(in_used); SYM(in_stale);
   SYM(in_open_fail); SYM(in_fstat_fail); SYM(in_pipe_fail); SYM(in_spawn_fail);
 #endif
 }
@@ -248,6 +249,12 @@ void vmain(void)
   stralloc_append(&recip, "");
   delnum = in_delnum;
   if (in_delnum < NSLOT) slots[in_delnum].used = in_used;
+  /* arbitrary valid pre-state: the slot was used before, its output buffer still holds that delivery's report */
+  ASSUME(in_stale <= 3);
+  if (in_delnum < (unsigned int) auto_spawn && !in_used) {
+    static char stalebuf[8] = "Kold";
+    slots[in_delnum].output.s = stalebuf; slots[in_delnum].output.a = 8; slots[in_delnum].output.len = in_stale;
+  }
 
   docmd();
 
@@ -264,6 +271,8 @@ void vmain(void)
     if (!in_spawn_fail) {
       CHECK(in_delnum < NSLOT && slots[in_delnum].used == 1 && slots[in_delnum].pid == 4321, "the slot records the running delivery");
       CHECK(open_fds == 2, "only the report pipe stays open");
+      CHECK(slots[in_delnum].output.len == 0, "C09/C18: a delivery starts with an empty report buffer (nothing of the slot's previous delivery is reported again)");
+      if (in_stale) WITNESS("slot_reused");
       WITNESS("delivery_started");
     }
   }
